@@ -323,6 +323,55 @@ def mc_monitors(sc, runs, ref_runs):
     return fails
 
 
+
+def battery_names():
+    """names of the predicate-battery instances, in the order of harness/src/mc.rs pred_battery and Model/PredInst.v"""
+    n = []
+    n += ["invariants::state_depth(%d)" % d for d in (0, 1, 2, 3, 5)]
+    n += ["invariants::state_depth_current_run(%d)" % d for d in (1, 2, 4, 8)]
+    n += ["invariants::received_messages(n0,p0,{})", "invariants::received_messages(n0,p0,{d0})",
+          "invariants::received_messages(n0,p0,{d0,d1})", "invariants::received_messages(n1,p1,{d1})",
+          "invariants::received_messages(n1,p0,{d0}) [wrong node]"]
+    for k in (0, 1, 2):
+        n += ["goals::got_n_local_messages(n0,p0,%d)" % k, "goals::got_n_local_messages(n1,p1,%d)" % k]
+    n += ["goals::no_events", "goals::always_ok"]
+    n += ["goals::depth_reached(%d)" % d for d in (0, 2, 4)]
+    for k in (1, 2, 3):
+        n += ["goals::event_happened_n_times_current_run(is_recv,%d)" % k, "goals::event_happened_n_times_current_run(is_fired,%d)" % k]
+    n += ["prunes::state_depth(%d)" % d for d in (0, 2, 4)]
+    n += ["prunes::sent_messages_limit(%d)" % d for d in (0, 1, 2)]
+    n += ["prunes::events_limit(is_recv,%d)" % d for d in (0, 1, 3)]
+    n += ["prunes::events_limit_per_proc(recv_by,[p0,p1],%d)" % d for d in (0, 1, 2)]
+    n += ["prunes::events_limit_per_proc(involves,[p0,p1],%d)" % d for d in (1, 2)]
+    n += ["prunes::events_limit_per_proc(involves,[p1,p0],%d)" % d for d in (1, 2)]
+    n += ["prunes::events_limit_per_proc(involves,[p2,p1,p0],1)"]
+    n += ["prunes::event_happened_n_times_current_run(is_recv,%d)" % d for d in (1, 2)]
+    n += ["prunes::proc_permutations([p0,p1])", "prunes::proc_permutations([p1,p0])", "prunes::proc_permutations([p0,p1,p2])",
+          "prunes::proc_permutations([p2,p0])"]
+    n += ["collects::state_depth(0)", "collects::state_depth(2)", "collects::no_events", "collects::got_n_local_messages(n0,p0,1)",
+          "collects::events_limit(is_fired,0)", "collects::event_happened_n_times_current_run(is_fired,1)"]
+    n += ["all_invariants", "any_goal", "all_goals", "any_prune", "any_collect", "all_collects",
+          "default invariant", "default goal", "default prune", "default collect"]
+    return n
+
+
+KV_PB = re.compile(r" pb=([01x]+)")
+
+
+def battery_diff(il, ml):
+    """first state line on which implementation and model agree on everything except the predicate battery:
+    the library predicate returns another value than its (proved) specification on a real McState"""
+    for a, b in zip(il, ml):
+        if a == b:
+            continue
+        ma, mb = KV_PB.search(a), KV_PB.search(b)
+        if ma and mb and a[:ma.start()] == b[:mb.start()] and ma.group(1) != mb.group(1):
+            names = battery_names()
+            idx = [i for i, (x, y) in enumerate(zip(ma.group(1), mb.group(1))) if x != y]
+            return a, [(names[i] if i < len(names) else "#%d" % i, ma.group(1)[i], mb.group(1)[i]) for i in idx]
+        return None
+    return None
+
 def mc_run_all(ctx, scs, can_run_model, tag, with_ref=True):
     """run implementation, model and reference semantics on MC scenarios; record correspondence + monitors"""
     impl = vlib.run_impl(scs, tag + "-impl")
@@ -338,6 +387,13 @@ def mc_run_all(ctx, scs, can_run_model, tag, with_ref=True):
             if d is not None:
                 ctx.disagreements.append({"suite": "MC model-vs-impl", "scenario": vlib.scenario_text(sc),
                                           "diff": {"line": d[0], "impl": d[1], "model": d[2]}})
+                bd = battery_diff(il, model.get(sid, []))
+                if bd is not None:
+                    ctx.monitor_failures.append({
+                        "clause": "C19:predicate_value",
+                        "detail": "on the state of line '%s...' the library returns another value than the specification: %s"
+                                  % (bd[0][:60], "; ".join("%s: library %s, specification %s" % t for t in bd[1])),
+                        "scenario": vlib.scenario_text(sc), "impl": il[:300], "seed": ctx.seed, "suite": "MC"})
             else:
                 ctx.validated += 1
         runs = parse_mc(il)
@@ -357,7 +413,7 @@ def mc_run_all(ctx, scs, can_run_model, tag, with_ref=True):
     ctx.clauses.update(["C09:rolled_back", "C09:mode_restored", "C14:purged", "C14:stays_silent", "C03:verdict_ok",
                         "C03:error_genuine", "C02:error_trace", "C16:collected_sound", "C16:collected_complete",
                         "C16:status_counts", "C02:state_genuine", "C03:exhaustive", "C03:verdict_kind", "C20:no_panic",
-                        "C19:depth_predicates", "C19:state_depth_current_run", "C14:no_panic"])
+                        "C19:depth_predicates", "C19:state_depth_current_run", "C14:no_panic", "C19:predicate_value"])
     return impl, parsed
 
 
@@ -1213,6 +1269,11 @@ def suite_mc_repeat(ctx, can_run_model):
         else:
             scs.append(gen_mc.variant(base, "rp%d-%d" % (ctx.seed, j), st, vm, debug=1, repeat=1,
                                       depth_prune=5 if vm == "DISABLED" else None))
+    if not ctx.widen:
+        # minimised past failures first, several copies each (a hash-order dependence shows only in some runs)
+        for w in load_corpus("MCREPEAT"):
+            for k in range(4):
+                scs.insert(0, ("MC", "%s-%d" % (w[1], k), w[2]))
     impl = vlib.run_impl(scs, "rp-impl", env={"ASV_REPEAT": "1"})
     impl2 = vlib.run_impl(scs, "rp-impl2")
     model = vlib.run_model(scs, "rp-model") if can_run_model else {}
@@ -1393,7 +1454,7 @@ PROPERTIES = {
                 "table-driven processes that issue each row grouped by kind and with Python twins "
                 "(harness/py/script_proc.py) through PyProcessFactory; payloads are normalised JSON; programs may read "
                 "the clock; traces, return values, counters, every model-checked state (pending events, trace, "
-                "outboxes, counters, verdict, 65 library predicates), results, save/restore round trips and the source "
+                "outboxes, counters, verdict, 70 library predicates), results, save/restore round trips and the source "
                 "processes' states before/after the checker ran are compared; a tenth of the scripts make the Python "
                 "process raise: the framework must stop with a handler error. distinct_nontrivial = scripts with >= 12 "
                 "trace entries / evaluated states, or a surfaced exception.",
@@ -1499,7 +1560,7 @@ PROPERTIES = {
     },
     "C19": {
         "suites": [suite_mc, suite_mc_staged],
-        "rule": MC_RULE + "On EVERY state handed to the invariant a battery of 65 instances of the library predicates "
+        "rule": MC_RULE + "On EVERY state handed to the invariant a battery of 70 instances of the library predicates "
                 "(all of src/mc/predicates.rs except time_limit: depth limits with boundary parameters, received_messages "
                 "with three expected sets and a wrong node, got_n_local_messages, no_events, depth_reached, always_ok, "
                 "event_happened_n_times_current_run, sent_messages_limit, events_limit(_per_proc), proc_permutations "
